@@ -15,6 +15,9 @@ META = {
              note='guard wait/signal, timeseries and clock are contract stubs (harness/cmv_guardstub.h); caller amount variable not aliased.'),
  'C15': dict(text='initialize(seed) proved equal to the documented splitmix64 bootstrap + 20 discards from an arbitrary prior state (z3); one sfc64 step equals the spec; flip cache emptied by seeding and flip step contract; gamma/geometric caches proved transparent; all static objects thread-local and accounted for (symbol table).',
              note='oracle = transcription of the published algorithms; libm uninterpreted in the cache groups; no thread interleaving is explored (sequential contracts + no shared mutable state).'),
+ 'C17': dict(text='Moment update/merge formulas of the real code (GIMPLE of the working tree, symbolically executed into sympy) proved equal to the definitions of the sample moments over the reals for all symbolic inputs and every path; accessors equal the documented estimators; weighted variants; IEEE-level facts (count, min/max, aliasing, empty operands, no NaN) by loop-free CBMC harnesses. Two known findings (weight scaling, constant data) are listed, hence category other.',
+             note='double treated as real for the algebraic obligations (the statement says up to rounding; rounding bounds are not derived); gcc GIMPLE dump and sympy trusted.',
+             technique='contract-based deductive verification: postconditions over the reals discharged by symbolic execution of the GIMPLE of the real functions (sympy) + CBMC loop-free harnesses'),
  'C06': dict(text='guard_queue_check proved equal to (priority desc, entry time asc, key asc) and a strict total order for all bit patterns.',
              note='NaN entry times excluded (cmb_time() is never NaN).'),
  'C07': dict(text='holder_queue_check proved a strict total order (priority asc, key desc).', note=''),
